@@ -16,6 +16,8 @@ pub struct Model {
     pub is128: bool,
     /// RAM bank paged at 0xC000 (128K)
     pub bank: u8,
+    /// cases run on the current machine since its paging got locked
+    pub locked_cases: u32,
 }
 
 impl Model {
@@ -193,7 +195,8 @@ struct St {
 fn one_case(ctx: &Ctx, m: &mut Machine, md: &mut Model, rng: &mut Rng, page: u8, opcode: u8, placement: Option<u8>, fixed_t: Option<usize>, st: &mut St, case_id: u64, verbose: bool) {
     // 128K: change the bank at 0xC000 now and then (never lock)
     if md.is128 && rng.chance(1, 40) {
-        let v = rng.below(8) as u8 | (rng.below(2) as u8) << 3 | (rng.below(2) as u8) << 4;
+        // now and then with the lock bit: the bank selected by the locking write stays contended
+        let v = rng.below(8) as u8 | (rng.below(2) as u8) << 3 | (rng.below(2) as u8) << 4 | if rng.chance(1, 6) { 0x20 } else { 0 };
         m.out(0x7FFD, v);
         // a case may have locked paging earlier: take the accepted value from the hook
         md.bank = m.emu.verif_paging().0 & 7;
@@ -291,9 +294,15 @@ fn exec_case(ctx: &Ctx, m: &mut Machine, md: &mut Model, page: u8, opcode: u8, b
         // a locked machine is replaced so that bank diversity is kept
         let (v, locked) = m.emu.verif_paging();
         md.bank = v & 7;
+        // a locked machine keeps its bank for good: stay with it for a while (contention must
+        // still follow the bank), then replace it so that bank diversity is kept
         if locked {
-            *m = Machine::new(Cfg::of(true));
-            md.bank = 0;
+            md.locked_cases += 1;
+            if md.locked_cases > 300 {
+                *m = Machine::new(Cfg::of(true));
+                md.bank = 0;
+                md.locked_cases = 0;
+            }
         }
     }
     st.cases += 1;
@@ -365,7 +374,7 @@ pub fn run(ctx: &Ctx) -> Evidence {
         let d = r.get("details").cloned().unwrap_or(J::Null);
         let is128 = matches!(d.get("is128"), Some(J::Bool(true)));
         let mut m = Machine::new(Cfg::of(is128));
-        let mut md = Model { is128, bank: 0 };
+        let mut md = Model { is128, bank: 0, locked_cases: 0 };
         let bank = d.get("bank").and_then(|x| x.as_i64()).unwrap_or(0) as u8;
         if is128 {
             m.out(0x7FFD, bank);
@@ -393,7 +402,7 @@ pub fn run(ctx: &Ctx) -> Evidence {
         let encs: Vec<(u8, u8)> = (0..7u8).flat_map(|p| (0..=255u8).map(move |o| (p, o))).filter(|(p, o)| is_instruction(*p, *o)).collect();
         for is128 in [false, true] {
             let mut m = Machine::new(Cfg::of(is128));
-            let mut md = Model { is128, bank: 0 };
+            let mut md = Model { is128, bank: 0, locked_cases: 0 };
             let per = n_random as usize / shards / 2;
             for i in 0..per {
                 let case_id = ((is128 as u64) << 40) | (sh * per + i) as u64;
